@@ -418,6 +418,18 @@ const HAZARD_PROBES: [(&str, &str); 4] = [
     ("loop", "let y = 0;\nlet o = object begin function m(c) -> begin while (c <- c + 1) < 3 & y == 0 do let y = 5; y end; end;\nprint(\"m=~;\", o.m(0));\n"),
 ];
 
+/// The README's own scoping examples (and close variants), judged by the reference like any program.
+const README_SCOPE_PROBES: [&str; 8] = [
+    "let x = 1;\nlet y = 1;\nbegin\n  let y = 1;\n  let z = 1;\n  x <- 2;\n  y <- 2;\n  z <- 2;\n  print(\"~ ~ ~\\n\", x, y, z)\nend;\nprint(\"~\\n\", x);\nprint(\"~\\n\", y);\n",
+    "if let x = true then let y = true else let z = true;\nprint(\"~\\n\", x);\nprint(\"~\\n\", y);\n",
+    "array(let size = 7, null);\nprint(\"size: ~\\n\", size);\n",
+    "let a = array(let size = 3, begin size end);\nprint(\"~ ~\\n\", size, a);\nsize <- 9;\nprint(\"~\\n\", size);\n",
+    "let i = 1;\nlet a = array(4, begin let x = i; i <- i + 1; x end);\nprint(\"~ ~\\n\", a, i);\n",
+    "function f() -> begin let c = array(let m = 2, begin let q = m; q end); m + c[1] end;\nprint(\"~\\n\", f());\nbegin let d = array(let w = 2, begin w * 3 end); print(\"~ ~\\n\", w, d) end;\n",
+    "let a = let b = 2;\nprint(\"~ ~\\n\", a, b);\nlet c = (let d = 3) + d;\nprint(\"~ ~\\n\", c, d);\n",
+    "let x = 1;\nwhile (let t = x) < 3 do x <- x + 1;\nprint(\"~ ~\\n\", x, t);\nlet o = object begin let f = (let viaField = 5); end;\nprint(\"~ ~\\n\", viaField, o.f);\n",
+];
+
 fn c12_hazard_probes(rep: &mut Report) {
     for (kind, src) in HAZARD_PROBES.iter() {
         rep.evaluations += 1;
@@ -462,6 +474,19 @@ pub fn c12(ctx: &Ctx, rep: &mut Report) {
     }
     if ctx.shard == 0 {
         c12_hazard_probes(rep);
+        for (k, src) in README_SCOPE_PROBES.iter().enumerate() {
+            match real::parse(src) {
+                Ok(ast) => {
+                    let mut rng = ctx.rng("C12readme", k as u64);
+                    let j = judge(rep, "C12", &format!("readme-scope#{}", k), &ast, src, &mut rng, JudgeOpts::full());
+                    if !j.judged {
+                        rep.inconsistency(format!("README scoping probe {} is not judged by the reference: {:?}", k, j.outcome.res));
+                    }
+                    rep.bump("c12-size", "readme-probes");
+                }
+                Err(e) => rep.inconsistency(format!("README scoping probe {} does not parse: {}", k, e)),
+            }
+        }
     }
     let max_all = if ctx.quick() { 4 } else { 5 };
     let max_sample = 7;
